@@ -61,6 +61,8 @@ VARIABLES
 
 vars == <<phase, sec, plan, F, rd, chG, chP, cur, stage, txt, buf, calls>>
 
+LigGlyphs == <<9, 10, 13, 14, 15>>      \* GDEF class ligature, in fonts that have a GDEF table
+
 NoLay == [lang |-> "none", n |-> 1]
 
 Init ==
@@ -68,7 +70,7 @@ Init ==
   /\ plan \in ToSet(PlanMenu)
   /\ \E c \in ToSet(CmapMenu), w \in ToSet(WidthMenu), m \in ToSet(MarkMenu) :
        F = [cm |-> c,
-            widths |-> w, marks |-> m, gsub |-> NoTable, gpos |-> NoTable, kern |-> NoKern,
+            widths |-> w, marks |-> m, ligs |-> IF m = <<>> THEN <<>> ELSE LigGlyphs, gsub |-> NoTable, gpos |-> NoTable, kern |-> NoKern,
             read |-> FALSE]
   /\ rd = <<"min", "req", "nolig">>
   /\ chG = <<>> /\ chP = <<>> /\ cur = NoLay /\ stage = "idle" /\ txt = <<>> /\ buf = <<>>
@@ -174,7 +176,7 @@ StCmap ==
 
 StGsub ==
   /\ stage = "gsub"
-  /\ buf' = StageGsub(G, CurGl, buf) /\ stage' = "widths"
+  /\ buf' = StageGsub(F, G, CurGl, buf) /\ stage' = "widths"
   /\ UNCHANGED <<phase, sec, plan, F, rd, chG, chP, cur, txt, calls>>
 
 StWidths ==
@@ -184,7 +186,7 @@ StWidths ==
 
 StGpos ==
   /\ stage = "gpos"
-  /\ LET out == StageGpos(P, CurPl, buf) IN
+  /\ LET out == StageGpos(F, P, CurPl, buf) IN
        /\ buf' = out
        /\ calls' = Append(calls, [op |-> "layout", lang |-> cur.lang, swg |-> cur.swg, swp |-> cur.swp,
                                   s |-> txt, lg |-> cur.lg, lp |-> cur.lp, gl |-> CurGl, pl |-> CurPl,
@@ -254,14 +256,9 @@ WidthsOK ==
                       /\ buf[i].a = IF buf[i].g \in ToSet(F.marks) THEN 0 ELSE F.widths[buf[i].g + 1]
                       /\ buf[i].x = 0 /\ buf[i].y = 0
 
-\* no rule of the selected lookups matches anywhere
+\* the selected lookups leave the sequence as it is
 Inert(kind, T, sel, seq) ==
-  \A i \in 1..Len(sel) : LET lk == T.ll[sel[i] + 1] IN
-    \A p \in 1..Len(seq) :
-      CASE kind = "GSUB" /\ lk.ty = 4 -> FirstRule(lk.rules, LAMBDA r : LigMatches(r, seq, p)) = 0
-        [] kind = "GPOS" /\ lk.ty = 2 ->
-             p = Len(seq) \/ FirstRule(lk.rules, LAMBDA r : r[1] = seq[p].g /\ r[2] = seq[p + 1].g) = 0
-        [] OTHER -> FirstRule(lk.rules, LAMBDA r : r[1] = seq[p].g) = 0
+  \A i \in 1..Len(sel) : ApplyLookup(kind, F, T.ll[sel[i] + 1], seq) = seq
 
 LastCall == calls[Len(calls)]
 
@@ -271,7 +268,7 @@ Composition ==
     LET c == LastCall
         m == StageCmap(F, c.s)
     IN  /\ c.out = Layout(F, c.s, c.swg, c.swp, c.lg, c.lp, rd)
-        /\ (Inert("GSUB", G, c.gl, m) /\ Inert("GPOS", P, c.pl, m)) => c.out = Identity(F, c.s)
+        /\ (Inert("GSUB", G, c.gl, m) /\ Inert("GPOS", P, c.pl, StageWidths(F, m))) => c.out = Identity(F, c.s)
         /\ TextOf(c.out) = c.s
 
 \* equal calls, equal answers
